@@ -46,9 +46,56 @@ def _model_one(item):
     return ("ok", len(want), None)
 
 
+HEADING_RULES = ("MD001", "MD003", "MD022", "MD024", "MD025", "MD026")
+
+
+def _heading_report_docs():
+    """setext / ATX headings whose text and underline start in different columns, in and out of containers, with and without final
+    punctuation, duplicated, not surrounded by blank lines: the rules that report on a heading copy the heading's position"""
+    docs = []
+    for cont, ind in (("", ""), ("> ", "> "), ("- ", "  ")):
+        for it in ("", " ", "  ", "   "):
+            for iu in ("", " ", "  ", "   "):
+                for punct in ("", ":"):
+                    docs.append("# Doc\n\n%s%sOverview%s\n%s%s--------\n%sSome text\n\n%s%sOverview%s\n%s%s========\n" %
+                                (cont, it, punct, ind, iu, ind, ind if cont != "- " else "  ", it, punct, ind, iu))
+    return docs
+
+
+def _report_one(text):
+    from .. import obs as obsmod, runs
+    o = runs.execute([("doc.md", text.encode("utf-8"))], ["scan", "doc.md"], keep_contents=False)
+    if o["exc"] or o["code"] not in (0, 1) or "Error" in o["err"]:
+        return None
+    lines = text.split("\n")
+    bad = []
+    for f in obsmod.parse_failures(o["out"]):
+        _n, ln, col, rule = f[0], f[1], f[2], f[3]
+        if rule not in HEADING_RULES or not (1 <= ln <= len(lines)):
+            continue
+        line = lines[ln - 1]
+        ch = line[col - 1] if 1 <= col <= len(line) else ""
+        # MD026 points at the punctuation; every other heading rule at the first character of the heading (text or `#`)
+        ok = (ch != "" and ch in ".,;:!?") if rule == "MD026" else (ch not in ("", " ", "\t", ">") and (col == 1 or line[:col - 1].strip(" >-") == ""))
+        if not ok:
+            bad.append((rule, ln, col, line))
+    return bad
+
+
 def run(pid, tier):
     ctx = Ctx(pid, tier, "model_checking")
     keep, traces, verdicts = c04.collect(ctx, tier, "pos")
+    # ---- what the user sees: reports of the heading rules carry the heading's own position
+    hd = _heading_report_docs()
+    hres = impl.pmap(_report_one, hd, procs=16, chunksize=4)
+    judged = 0
+    for text, bad in zip(hd, hres):
+        if bad is None:
+            continue
+        judged += 1
+        for rule, ln, col, line in bad:
+            ctx.violation("report-position-not-on-heading:%s :: %s" % (rule, psweep.doc_shape(text)), {"document": text, "rule": rule, "line": ln, "column": col, "source_line": line})
+    ctx.ev.parts["heading_report_documents"] = judged
     # ---- second oracle: the opener positions the block model assigns
     from .. import docspace
     md = docspace.model_docs(ctx, tier)
